@@ -122,6 +122,37 @@ Section MemLemmas.
     - destruct l as [|y l]; [discriminate|]. simpl in H. apply IH in H. exact H.
   Qed.
 
+  (* swap of two neighbours, and Array_Push_At's loop that swaps the last element down *)
+  Lemma swap_at_adjacent a y x r :
+    swap_at (a ++ y :: x :: r) (length a + 1) (length a) = Some (a ++ x :: y :: r).
+  Proof.
+    unfold swap_at.
+    assert (H1 : nth_error (a ++ y :: x :: r) (length a + 1) = Some x).
+    { rewrite nth_error_app2 by lia. replace (length a + 1 - length a) with 1 by lia. reflexivity. }
+    assert (H2 : nth_error (a ++ y :: x :: r) (length a) = Some y).
+    { rewrite nth_error_app2 by lia. rewrite Nat.sub_diag. reflexivity. }
+    rewrite H1, H2.
+    assert (H3 : set_at (a ++ y :: x :: r) (length a + 1) y = Some (a ++ y :: y :: r)).
+    { replace (a ++ y :: x :: r) with ((a ++ [y]) ++ x :: r) by (rewrite <- app_assoc; reflexivity).
+      replace (length a + 1) with (length (a ++ [y])) by (rewrite app_length; reflexivity).
+      rewrite set_at_app_l, <- app_assoc. reflexivity. }
+    rewrite H3. apply set_at_app_l.
+  Qed.
+
+  Lemma bubble_spec b : forall a x r,
+    bubble (length b) (a ++ b ++ x :: r) (length a + length b) = Some (a ++ x :: b ++ r).
+  Proof.
+    induction b as [|y b IH] using rev_ind; intros a x r.
+    - reflexivity.
+    - rewrite app_length. simpl length. replace (length b + 1) with (S (length b)) by lia.
+      cbn [bubble]. rewrite <- app_assoc. simpl app.
+      replace (a ++ b ++ y :: x :: r) with ((a ++ b) ++ y :: x :: r) by (rewrite <- app_assoc; reflexivity).
+      replace (length a + S (length b)) with (length (a ++ b) + 1) by (rewrite app_length; lia).
+      replace (length (a ++ b) + 1 - 1) with (length (a ++ b)) by lia.
+      rewrite swap_at_adjacent. rewrite <- app_assoc, app_length.
+      rewrite (IH a x (y :: r)). rewrite <- app_assoc. reflexivity.
+  Qed.
+
   Lemma write_all_app a ws rest :
     length ws <= length rest ->
     write_all (a ++ rest) (length a) ws = Some (a ++ ws ++ skipn (length ws) rest).
@@ -534,7 +565,7 @@ Section ArrayRefines.
       destruct (reserve_more_shape (mkA E (map SomeE vs ++ rest) (S (length vs)) s) vs rest eq_refl Hl)
         as (rest' & H1 & H2 & H3 & H4); [cbn [nitems]; lia|].
       set (a1 := a_reserve_more _) in *.
-      cbn [nitems] in *. rewrite H1, H3 in Hstep.
+      cbn [nitems] in *. rewrite H1 in Hstep.
       destruct rest' as [|c rest'].
       { exfalso. rewrite H1, app_nil_r, map_length in H2. lia. }
       assert (Hsplit : vs = firstn p vs ++ skipn p vs) by (symmetry; apply firstn_skipn).
@@ -543,11 +574,16 @@ Section ArrayRefines.
       assert (HB : length B = length vs - p) by (unfold B; apply skipn_length).
       assert (Hcells : map SomeE vs ++ c :: rest' = map SomeE A ++ map SomeE B ++ c :: rest')
         by (rewrite Hsplit at 1; rewrite map_app, <- app_assoc; reflexivity).
-      rewrite Hcells in Hstep.
-      destruct (memmove_insert _ (map SomeE A) (map SomeE B) c rest' (Some v)) as (l1 & Hm & Hs).
-      rewrite !map_length in Hm. rewrite HA in Hm. rewrite map_length, HA in Hs.
-      replace (S (length vs) - 1 - p) with (length B) in Hstep by lia.
-      rewrite Hm, Hs in Hstep. injection Hstep as <- <-.
+      pose proof (set_at_app_l _ (map SomeE vs) rest' (SomeE v) c) as Hset.
+      rewrite map_length in Hset. rewrite Hset in Hstep.
+      assert (Hcells' : map SomeE vs ++ SomeE v :: rest' = map SomeE A ++ map SomeE B ++ SomeE v :: rest')
+        by (rewrite Hsplit at 1; rewrite map_app, <- app_assoc; reflexivity).
+      rewrite Hcells' in Hstep.
+      pose proof (bubble_spec _ (map SomeE B) (map SomeE A) (SomeE v) rest') as Hb.
+      rewrite !map_length in Hb. rewrite HA in Hb.
+      replace (length vs - p) with (length B) in Hstep by lia.
+      replace (length vs) with (p + length B) in Hstep at 1 by lia.
+      rewrite Hb in Hstep. injection Hstep as <- <-.
       set (a' := mkA E _ _ _).
       assert (Hc' : cells E a' = map SomeE (insert_at E p v vs) ++ rest').
       { unfold a', insert_at. cbn [cells]. fold A B. rewrite map_app. simpl map.
